@@ -240,6 +240,24 @@ func initArrayList() {
 
 	Def(
 		c,
+		"[]@1",
+		func(vm *Thread, args []value.Value) (value.Value, value.Value) {
+			// the slice of a list is a list, `Tuple#slice` builds a tuple
+			sliced, err := vm.CallMethodByName(symbol.L_slice, args[0], args[1])
+			if !err.IsUndefined() {
+				return value.Undefined, err
+			}
+			if tuple, ok := sliced.SafeAsReference().(*value.ArrayTupleOfValue); ok {
+				list := value.ArrayListOfValue(*tuple)
+				return value.Ref(&list), value.Undefined
+			}
+			return sliced, value.Undefined
+		},
+		DefWithParameters(1),
+	)
+
+	Def(
+		c,
 		"map_mut",
 		func(vm *Thread, args []value.Value) (value.Value, value.Value) {
 			self := args[0].AsReference().(value.ArrayList)
